@@ -476,6 +476,28 @@ def search(ctx, boost=False):
                     s.nontrivial.add((a, b, wrap[0]))
                 if msg:
                     s.violations.append(dict(what=msg, case=dict(kind="pair", a=a, b=b, wrap=list(wrap))))
+    # targeted: the two halves spell the SAME type / placeholder / name, decorated differently (east const, volatile, pointer,
+    # reference, array, default value): nothing of a decoration in one statement may show up on the other statement's objects
+    # (objects shared between statements -- cached types, interned names -- would leak exactly here)
+    BASES = ["auto", "Foo", "int", "ns::T", "std::vector<int>", "decltype(auto)", "unsigned long", "typename T::type", "struct S"]
+    DECOS = ["@ const", "@ volatile", "@ const*", "@ const&", "const @", "@*", "@&&", "@ const volatile* const", "@"]
+    FORMS = ["void q%d(@ x);", "void q%d(@ x, @ y);", "void q%d(@);", "template <typename U> void q%d(U u, @ v);", "extern @ q%d;",
+             "auto q%d(int i) -> @;", "typedef @ q%d;", "using q%d = @;", "void q%d(@ x = {});", "struct q%d { @ m; void f(@ p); };",
+             "@ q%d(@ a);"]
+    for i in range(ctx.scale(260, 5000)):
+        base = rng.choice(BASES)
+        da, db = rng.choice(DECOS), rng.choice(DECOS)
+        fa, fb = rng.choice(FORMS), rng.choice(FORMS)
+        a = fa.replace("@", da.replace("@", base)).replace("%d", "a%d" % i)
+        b = fb.replace("@", db.replace("@", base)).replace("%d", "b%d" % i)
+        wrap = WRAPS[i % 3]
+        s.evaluations += 1
+        s.count("same spelling")
+        msg, ok = check_pair(a, b, wrap)
+        if ok:
+            s.nontrivial.add((a, b, "same spelling"))
+        if msg:
+            s.violations.append(dict(what=msg, case=dict(kind="pair", a=a, b=b, wrap=list(wrap))))
     # targeted: re-opened namespaces through plain, nested and a::b forms
     heads = ["namespace p {", "namespace p { namespace q {", "namespace p::q {", "namespace p::q::r {", "namespace q {", "namespace {",
              "inline namespace p {", "namespace p { namespace q { namespace r {"]
